@@ -599,7 +599,7 @@ fn gen_hammer(r: &mut Rng, want: Option<Kind>) -> Generated {
     let threads = (0..n_threads)
         .map(|_| ThreadSpec { ops: (0..r.range(10, 18)).map(|_| pool[r.below(pool.len())].clone()).collect(), crash_on_fault: false })
         .collect();
-    Generated { spec: RunSpec { slots: vec![cfg], threads, sched: Sched::RoundRobin { quantum: 1 }, stall: None }, faults }
+    Generated { spec: RunSpec { build_on_thread: vec![], slots: vec![cfg], threads, sched: Sched::RoundRobin { quantum: 1 }, stall: None }, faults }
 }
 
 /// one complete run specification from one seed
@@ -700,5 +700,6 @@ fn gen_run_inner(seed: u64, mode: Mode) -> Generated {
         None
     };
     let _ = ctxs.iter().map(|c| c.f32ok).count();
-    Generated { spec: RunSpec { slots, threads, sched, stall }, faults }
+    let build_on_thread = (0..n_slots).map(|_| mode != Mode::C17Miri && r.chance(1, 2)).collect();
+    Generated { spec: RunSpec { build_on_thread, slots, threads, sched, stall }, faults }
 }
